@@ -11,7 +11,7 @@ import os
 import z3
 
 from vf import ty as T
-from vf.core import SV, FuncVal, fresh
+from vf.core import SV, FuncVal, Unsupported, fresh
 from vf.engine import Contract
 
 MODULE = "dask/utils.py"
@@ -104,7 +104,85 @@ client_generated = Contract(
     ensures=[("C53-separate-locks-never-exclude-each-other", "a.lock != b.lock")],
 )
 
-CONTRACTS = [init, getstate, setstate, gc_step, client_copy, client_separate, client_generated]
+# ---- transparent delegation: acquire/release/locked/__enter__/__exit__ forward to the shared threading.Lock
+Args = T.U("Args")
+Ret = T.Bool  # Lock.acquire / Lock.locked answer with a bool; release/__enter__/__exit__ results are not used
+Call = T.U("LockCall")
+DFREE = {"NCALLS": T.Int, "LASTCALL": Call}
+_call_uf = {}
+_ret_uf = {}
+
+
+def _ufs(meth, n):
+    k = (meth, n)
+    if k not in _call_uf:
+        sorts = [LockObj.sort()] + [Args.sort()] * n
+        _call_uf[k] = z3.Function(f"lockcall_{meth}_{n}", *sorts, Call.sort())
+        _ret_uf[k] = z3.Function(f"lockret_{meth}_{n}", *sorts, Ret.sort())
+    return _call_uf[k], _ret_uf[k]
+
+
+def lock_method(meth):
+    """`lock.<meth>(*a, **k)` on a threading.Lock: trusted primitive.  Its answer is an uninterpreted function of
+    (lock object, arguments); the ghost log NCALLS/LASTCALL records that it was called, on which lock, with what."""
+    def m(eng, st, base, node, lv):
+        vals = []
+        for a in node.args:
+            v = eng.ev(a.value if isinstance(a, ast.Starred) else a, st)
+            if v.ty != Args:
+                raise Unsupported(f"lock.{meth}: argument of type {v.ty} (only forwarded *args/**kwargs are modelled)")
+            vals.append(v.t)
+        for kw in node.keywords:
+            v = eng.ev(kw.value, st)
+            if kw.arg is not None or v.ty != Args:
+                raise Unsupported(f"lock.{meth}: keyword argument (only forwarded **kwargs are modelled)")
+            vals.append(v.t)
+        cf, rf = _ufs(meth, len(vals))
+        n = eng.read_name(st, "NCALLS")
+        st.env["NCALLS"] = SV(n.t + 1, T.Int)
+        st.env["LASTCALL"] = SV(cf(base.t, *vals), Call)
+        if meth in ("acquire", "locked"):
+            return SV(rf(base.t, *vals), Ret)
+        return SV(T.NoneT.value(), T.NoneT)
+    return m
+
+
+def spec_uf(table, meth, n):
+    def f(eng, st, node, want):
+        args = [eng.ev(a, st) for a in node.args]
+        return SV(table(meth, n)(*[a.t for a in args]), Ret if table is _retf else Call)
+    return f
+
+
+def _retf(meth, n):
+    return _ufs(meth, n)[1]
+
+
+def _callf(meth, n):
+    return _ufs(meth, n)[0]
+
+
+def delegation(meth, params, returns, n, result_clause):
+    extra = ", ".join(p for p in params if p != "self")
+    argl = "self.lock" + (", " + extra if extra else "")
+    ens = [
+        ("C53-forwards-to-the-shared-lock-exactly-once", "NCALLS == old(NCALLS) + 1"),
+        ("C53-same-lock-same-arguments", f"LASTCALL == lockcall_{meth}({argl})"),
+    ]
+    if result_clause:
+        ens.append(("C53-reports-the-lock's-own-answer", f"result == lockret_{meth}({argl})"))
+    return Contract(MODULE, f"SerializableLock.{meth}", params={"self": SLObj, **{p: Args for p in params if p != "self"}},
+                    free=DFREE, frame=["NCALLS", "LASTCALL"], returns=returns, ensures=ens)
+
+
+acquire = delegation("acquire", ["self", "args", "kwargs"], Ret, 2, True)
+release = delegation("release", ["self", "args", "kwargs"], None, 2, False)
+locked = delegation("locked", ["self"], Ret, 0, True)
+enter = delegation("__enter__", ["self"], T.NoneT, 0, False)
+exit_ = delegation("__exit__", ["self", "args"], T.NoneT, 1, False)
+DELEGATIONS = {"acquire": 2, "release": 2, "locked": 0, "__enter__": 0, "__exit__": 1}
+
+CONTRACTS = [init, getstate, setstate, gc_step, client_copy, client_separate, client_generated, acquire, release, locked, enter, exit_]
 
 
 def model_lock(eng, st, node, want):
@@ -152,3 +230,8 @@ def setup(eng):
     eng.attr_models[("method", "SerializableLockObj", "__init__")] = method_via(init)
     eng.attr_models[("method", "SerializableLockObj", "__setstate__")] = method_via(setstate)
     eng.attr_models[("method", "SerializableLockObj", "__getstate__")] = method_via(getstate)
+    eng.spec_types["Args"] = Args
+    for meth, n in DELEGATIONS.items():
+        eng.attr_models[("method", "LockObj", meth)] = lock_method(meth)
+        eng.funcs[f"lockcall_{meth}"] = FuncVal(f"lockcall_{meth}", "model", spec_uf(_callf, meth, n))
+        eng.funcs[f"lockret_{meth}"] = FuncVal(f"lockret_{meth}", "model", spec_uf(_retf, meth, n))
